@@ -446,8 +446,8 @@ Definition backpatch (ss : list stmt) (tb : symtab) : res symtab :=
                                   | Some t => Ok (fst kv, cp_addr (s_pkg t))
                                   | None => Internal E_INDEX
                                   end
-                     | VExpr l op r _ true =>       (* an EQU defined by label arithmetic (repairs F46, F47) *)
-                         do v <- calc_offset ss l op r; Ok (fst kv, v)
+                     | VExpr l op r _ true =>       (* an EQU defined by label arithmetic (repairs F46, F47, F52) *)
+                         do v <- calc_offset ss l op r; do v' <- as_translation_error (fit_value v 4 true); Ok (fst kv, v')
                      | v => Ok (fst kv, v)
                      end) tb.
 
